@@ -119,6 +119,11 @@ def gen_recipe(rng, kind=None, maxn=(12, 12, 14), force=None):
                   surface=surf, mode=mode,
                   rot_centre=rng.choice(['origin', 'centre', 'zero']),
                   extra_precision=(kind == 'file' and rng.random() < 0.25))
+    if rng.random() < 0.3:
+        # the new geometry may be named by another convention / justification than the generating one
+        rc = rng.randrange(4)
+        if not (rc == 1 and (nx + 1) * (ny + 1) > 99): recipe['rconvention'] = rc
+        recipe['rjustify'] = rng.choice(['r', 'l'])
     recipe.update({k: v for k, v in force.items() if k not in ('n', 'mode')})
     if recipe['atmos_type'] == 2: recipe['atmvol'] = recipe['atmconn'] = None
     return recipe
